@@ -555,6 +555,32 @@ def resolved_returns(func: FuncInfo, depth: int = 2) -> list[ast.AST]:
 	return out
 
 
+def _fold_predicate(body: list[ast.stmt]) -> ast.AST | None:
+	"""the boolean expression a guard-style predicate returns: statements are `if T: return <True|False>` (no else), single-name assignments of
+	side-effect-free expressions, and a final `return E`; None for any other shape"""
+	import copy
+	if not body or not isinstance(body[-1], ast.Return) or body[-1].value is None:
+		return None
+	expr = copy.deepcopy(body[-1].value)
+	for st in reversed(body[:-1]):
+		if isinstance(st, ast.If) and not st.orelse and len(st.body) == 1 and isinstance(st.body[0], ast.Return) and isinstance(st.body[0].value, ast.Constant) and isinstance(st.body[0].value.value, bool):
+			t = copy.deepcopy(st.test)
+			if st.body[0].value.value:
+				expr = ast.BoolOp(op=ast.Or(), values=[t, expr])
+			else:
+				expr = ast.BoolOp(op=ast.And(), values=[ast.UnaryOp(op=ast.Not(), operand=t), expr])
+		elif isinstance(st, ast.Assign) and len(st.targets) == 1 and isinstance(st.targets[0], ast.Name) and not any(isinstance(x, (ast.Await, ast.Yield, ast.NamedExpr)) for x in ast.walk(st.value)):
+			name, val = st.targets[0].id, st.value
+
+			class S(ast.NodeTransformer):
+				def visit_Name(self, n: ast.Name):
+					return copy.deepcopy(val) if isinstance(n.ctx, ast.Load) and n.id == name else n
+			expr = S().visit(expr)
+		else:
+			return None
+	return ast.fix_missing_locations(ast.copy_location(expr, body[-1]))
+
+
 def inline_predicates(func: FuncInfo, known: list[tuple[ast.AST, bool]], depth: int = 2) -> list[tuple[ast.AST, bool]]:
 	"""a condition that is a call of a same-class helper (or nested function) whose body is a single `return <expr>` stands for that expression with
 	the helper's parameters replaced by the call arguments (`cls._enclosed(text, '/')` -> `len(text) >= 2 and text.startswith('/') and text.endswith('/')`)"""
@@ -569,6 +595,11 @@ def inline_predicates(func: FuncInfo, known: list[tuple[ast.AST, bool]], depth: 
 				g = func.module.functions.get(f'{func.qualname}.<locals>.{a.func.id}') or func.module.functions.get(a.func.id)
 		rets = [n for n in walk_no_nested(g.node) if isinstance(n, ast.Return)] if g is not None else []
 		body = [s for s in g.node.body if not (isinstance(s, ast.Expr) and isinstance(s.value, ast.Constant))] if g is not None else []
+		if g is not None and len(body) > 1:
+			# a predicate written with guards: `if A: return False; x = E; return B` reads `(not A) and B[x := E]`
+			folded = _fold_predicate(body)
+			if folded is not None:
+				rets, body = [ast.Return(value=folded)], [ast.Return(value=folded)]
 		if g is None or len(rets) != 1 or len(body) != 1 or rets[0].value is None:
 			out.append((a, pol))
 			continue
@@ -605,6 +636,9 @@ def inline_simple_calls(func: FuncInfo, e: ast.AST, depth: int = 2) -> ast.AST:
 		if g is None:
 			return None
 		body = [s_ for s_ in g.node.body if not (isinstance(s_, ast.Expr) and isinstance(s_.value, ast.Constant))]
+		if len(body) > 1:
+			folded = _fold_predicate(body)  # `if A: return False; return B` stands for `(not A) and B`
+			return (g, folded) if folded is not None else None
 		if len(body) != 1 or not isinstance(body[0], ast.Return) or body[0].value is None:
 			return None
 		return g, body[0].value
